@@ -14,19 +14,53 @@ CM = "conch/ssh/common.py"
 KY = "conch/ssh/keys.py"
 QC = "twisted.conch.ssh.common."
 QK = "twisted.conch.ssh.keys.Key."
-TECHNIQUE = "finite evaluation of interpreted NS/MP and Key round trips (stub cryptography) + input provenance"
+TECHNIQUE = ("structural: writer / reader schema extraction and table agreement (struct formats, slice offsets by linear normal form, field order, key-type sets, "
+             "container layout), provenance of the parsed bytes, fixed-width operands; finite-exhaustive: NS / MP evaluated over the value classes they can "
+             "distinguish (domain argument checked on the code), sign-padding test over all 256 leading bytes, PEM writer guards over all key classes, format "
+             "guessing over every tag / armour the writers emit; second layer (bounded): readers and Key round trips interpreted with stand-in cryptography")
+RULE_KINDS = {
+    "s/": "structural",
+    "s/primitive/mp-sign-padding": "finite-exhaustive",
+    "s/container/pem-kinds": "finite-exhaustive",
+    "s/dispatch/guess-recognises-written": "finite-exhaustive",
+    "primitive/NS": "finite-exhaustive",
+    "primitive/MP": "finite-exhaustive",
+    "primitive/getNS": "bounded",
+    "primitive/getMP": "bounded",
+    "primitive/round-trip": "bounded",
+    "primitive-samples/": "bounded",
+    "roundtrip/": "bounded",
+    "keys/fixed-width-fields": "structural",
+    "input/binary-formats-unmodified": "structural",
+}
 EXPLANATION = (
-    "Primitives: NS, getNS, MP, getMP are evaluated by a whitelisted interpreter (no twisted code is run) on strings / text / integers up to "
-    "2^4096 (all sign-padding classes, zero, concatenated streams with a tail, counts) against RFC 4251 reference encoders and decoders, and "
-    "composed with each other. Keys: the source of Key is evaluated with stand-ins for the cryptography objects (numbers objects, SEC1 point "
-    "widths, 32-byte raw Ed25519 encodings, a PEM-like container, bcrypt / CTR stand-ins) over a pool of RSA, DSA, ECDSA (P-256/384/521) and "
-    "Ed25519 keys chosen to hit sign padding, coordinates with leading zero bytes and encodings ending in ASCII whitespace; every key is "
-    "serialised through every format that supports its type - public blob (guessed and explicit), OpenSSH public line (with / without comment), "
-    "LSH public and private, agent v3, private blob, OpenSSH PEM and v1 (with / without passphrase (bytes and str), with comment) - parsed back "
-    "with fromString and compared on type, public/private, every component and the public blob (hence the fingerprint). Structurally: no "
-    "minimal-length integer encoding sits unframed inside a concatenated NS payload, and between Key.fromString's parameter and a binary-format "
-    "parser nothing trims / slices the data unless the format is known to be textual. Not decided: the real cryptography (key validity, "
-    "fingerprint hash functions, bcrypt, PEM as written by OpenSSL)."
+    "Layers: s/... rules are STRUCTURAL (table agreement on the code, nothing evaluated) unless listed as finite-exhaustive; primitive/NS and primitive/MP are "
+    "FINITE-EXHAUSTIVE; roundtrip/..., primitive/getNS, primitive/getMP, primitive/round-trip are BOUNDED (source interpreted on enumerated inputs). A structural "
+    "group that cannot read the shape abstains with a note and leaves the clause to the evaluated layer. Per clause: "
+    "[NS, MP writers] primitive/NS, primitive/MP: first it is checked on the code that the function looks at its argument only through type dispatch / comparison "
+    "with 0 / the first byte of the minimal encoding / len() (only packed) / concatenation; then every class is evaluated against the RFC 4251 reference (all 255 "
+    "leading bytes x lengths on both sides of the length field's byte boundaries x three fillings; bytes and str of every UTF-8 width) - finite-exhaustive; "
+    "if the domain check fails the same inputs are reported as primitive-samples/ (bounded) with a note. Structural deciders of the same clauses: "
+    "s/primitive/length-of-what-is-appended, length-format, mp-zero; s/primitive/mp-sign-padding evaluates the padding test for all 256 leading bytes. "
+    "[getNS, getMP readers] s/primitive/format-agreement (reader's struct format == writer's), s/primitive/offsets (header at [c:c+4], body at [c+4:c+4+l], advance "
+    "4+l as linear normal forms), s/primitive/rest-returned, s/primitive/mp-unsigned-big-endian - structural, for all inputs; primitive/getNS, getMP, round-trip are "
+    "bounded witnesses (reference-encoded streams with tails and counts). When the readers are written through a helper the structural group abstains and only "
+    "bounded evidence remains for them. "
+    "[key blobs] s/keys/field-schema, field-order, every-written-type-is-readable, type-tags, data-components, writer-types, lsh: the ordered field schema (NS/MP, "
+    "component) of every key-type branch of blob / privateBlob / _toString_AGENTV3 / _toString_LSH equals what the matching reader branch consumes; tags agree with "
+    "sshType(); every data[...] component exists - structural table agreement (for all keys); keys/fixed-width-fields (no minimal-length integer unframed inside a "
+    "concatenated NS payload) - structural; bounded witnesses roundtrip/binary, roundtrip/lsh. "
+    "[containers] s/container/v1-magic, v1-cipher (names, key size derived from the name, key/IV split by linear normal form), v1-kdf (name, rounds recorded == "
+    "rounds used), v1-field-order (writer layout == reader's chain of getNS / unpack), v1-check-words - structural; s/container/pem-kinds: the PEM writer's guards "
+    "evaluated for every key class vs. the kinds the reader accepts - finite-exhaustive; bounded witness roundtrip/openssh. "
+    "[format guessing] s/dispatch/guess-names, format-has-parser, helper-exists - structural; s/dispatch/guess-recognises-written: _guessStringType's tests "
+    "evaluated on every type tag / armour line / bracket the writers can emit (finite tables) - finite-exhaustive. "
+    "[input provenance] input/binary-formats-unmodified: between fromString's parameter and a binary-format parser nothing trims / slices the data unless the "
+    "format is known to be textual (CFG paths, parser classification) - structural. "
+    "Bounded evidence only: value-level equality of the parsed key (type, components, public blob) after a round trip through the stand-in cryptography "
+    "(roundtrip/...): the structural rules decide field kinds, order and framing, not that e.g. the SEC1 point or PEM body is reproduced bit for bit - that depends "
+    "on the cryptography library, which is outside the repository. Not decided: the real cryptography (key validity, fingerprint hash functions, bcrypt, PEM as "
+    "written by OpenSSL)."
 )
 ASSUMPTIONS = [
     "cryptography's int_to_bytes yields minimal big-endian bytes; load_pem_private_key / private_bytes are inverse (library contract)",
@@ -155,6 +189,8 @@ def guess(func, data: bytes):
 
 
 def check(ctx):
+    from sa.props._lib_h_s37 import structural
+    structural(ctx)
     with ctx.section('primitives/evaluated'):
         _primitives(ctx)
     with ctx.section('model/key-round-trips'):
@@ -198,15 +234,72 @@ def _primitives(ctx):
         except Exception as e:
             return f"<raises {type(e).__name__}: {e}>"
     strings = [b"", b"a", b"\x00", b"ssh-rsa", b"x" * 300, bytes(range(256))]
-    texts = ["", "abc", "héllo €"]
-    bad = [(x, run("NS", x)) for x in strings + texts if run("NS", x) != _ref_NS(x)]
-    ctx.check(not bad, "primitive/NS", QC + "NS", f"NS({bad[0][0] if bad else ''!r}) = {bad[0][1] if bad else ''!r}; RFC 4251 string is {_ref_NS(bad[0][0]) if bad else b''!r} "
-              "(uint32 length of exactly the bytes that follow)", detail=f"{len(strings) + len(texts)} inputs")
+    texts = ["", "abc", "h\u00e9llo \u20ac"]
     nums = [0, 1, 0x7F, 0x80, 0xFF, 0x100, 0x7FFF, 0x8000, 0xFFFF, 2 ** 31 - 1, 2 ** 31, 2 ** 32, 2 ** 63, 2 ** 64 - 1, 2 ** 255 - 19, 2 ** 256, 2 ** 521 - 1, 2 ** 1024 + 12345,
             2 ** 4096 - 1, 0x80 << 64, 0x7F << 64]
-    bad = [(x, run("MP", x)) for x in nums if run("MP", x) != _ref_MP(x)]
-    ctx.check(not bad, "primitive/MP", QC + "MP", f"MP({bad[0][0] if bad else 0}) = {bad[0][1] if bad else b''!r}; RFC 4251 mpint is {_ref_MP(bad[0][0])[:12] if bad else b''!r}... "
-              "(minimal big-endian, one leading zero byte iff the top bit is set, zero = empty)", detail=f"{len(nums)} numbers")
+
+    # -- writers: finite-exhaustive over the value classes the code can distinguish, after checking on the code what it looks at
+    def looks_only_through(fn, what):
+        """None if every read of the argument (and of the locals derived from it) is one of the permitted looks, else the offending text"""
+        tracked = {a.arg for a in fn.args.args} | {t.id for st in ast.walk(fn) if isinstance(st, ast.Assign) for t in st.targets if isinstance(t, ast.Name)}
+        for n in ast.walk(fn):
+            if not (isinstance(n, ast.Name) and isinstance(n.ctx, ast.Load) and n.id in tracked):
+                continue
+            par = n._parent
+            ok = False
+            if isinstance(par, ast.Call) and n in par.args:
+                fnm = (ast.unparse(par.func))
+                ok = fnm == "len" or (fnm == "isinstance" and par.args[0] is n and "type" in what) or (fnm.split(".")[-1] == "int_to_bytes" and "number" in what)
+                if fnm == "len":     # a length may only be packed
+                    pp = par._parent
+                    ok = isinstance(pp, ast.Call) and ast.unparse(pp.func).split(".")[-1] == "pack"
+            elif isinstance(par, ast.Attribute) and par.attr == "encode" and "type" in what:
+                ok = True
+            elif isinstance(par, ast.BinOp) and isinstance(par.op, ast.Add):
+                ok = True
+            elif isinstance(par, (ast.Assign, ast.Return)) or (isinstance(par, ast.IfExp) and n is not par.test):
+                ok = True
+            elif isinstance(par, ast.Compare) and "number" in what:
+                others = [par.left] + list(par.comparators)
+                ok = all(o is n or (isinstance(o, ast.Constant) and o.value == 0) for o in others)
+            elif isinstance(par, ast.Subscript) and par.value is n and "first-byte" in what:
+                sl = par.slice
+                first = (isinstance(sl, ast.Constant) and sl.value == 0) or (isinstance(sl, ast.Slice) and sl.step is None and (sl.lower is None or (isinstance(sl.lower, ast.Constant) and sl.lower.value == 0))
+                                                                             and isinstance(sl.upper, ast.Constant) and sl.upper.value == 1)
+                up = par._parent
+                if isinstance(up, ast.Call) and ast.unparse(up.func) == "ord":
+                    up = up._parent
+                ok = first and ((isinstance(up, ast.BinOp) and isinstance(up.op, (ast.BitAnd, ast.RShift))) or
+                                (isinstance(up, ast.Compare) and all(isinstance(o, ast.Constant) for o in [up.left] + list(up.comparators) if not any(x is par for x in ast.walk(o)))))
+            if not ok:
+                return ast.unparse(par)[:60]
+        return None
+
+    def decide(name, what, domain_text, inputs, ref, fails_text):
+        off = looks_only_through(ctx.func(CM, name), what)
+        rule = f"primitive/{name}" if off is None else f"primitive-samples/{name}"
+        if off is not None:
+            ctx.note(f"primitive/{name}: the domain argument does not hold ({name} also looks at its argument through `{off}`); the same inputs are reported as bounded samples")
+        bad = [(x, run(name, x)) for x in inputs if run(name, x) != ref(x)]
+        ctx.check(not bad, rule, QC + name, fails_text(bad[0]) if bad else "",
+                  detail=f"{len(inputs)} inputs. " + (domain_text if off is None else "bounded samples only"))
+    ns_inputs = [bytes([i & 0xFF]) * n for n in (0, 1, 2, 3, 4, 5, 255, 256, 257, 300, 65535, 65536, 65537) for i in (0, 0x41)] + strings \
+        + ["", "a", "abc", "\u00e9", "h\u00e9llo \u20ac", "\U0001F600", "x" * 300, "\u20ac" * 100]
+    decide("NS", {"type"}, "Domain argument (checked on the code): NS looks at its argument only through isinstance (type dispatch), .encode, len() (packed) and "
+           "concatenation, so its behaviour depends on the type class (bytes / str with 1-, 2-, 3-, 4-byte UTF-8 characters) and is uniform in the content; every type "
+           "class is enumerated with lengths on both sides of every byte boundary of the length field", ns_inputs, _ref_NS,
+           lambda b_: f"NS({b_[0][:20]!r}) = {b_[1][:24] if not isinstance(b_[1], str) else b_[1]!r}; RFC 4251 string is {_ref_NS(b_[0])[:24]!r} (uint32 length of exactly the bytes that follow)")
+    mp_inputs = [0] + nums
+    for first in range(1, 256):                 # the minimal encoding never starts with a zero byte
+        for length in (1, 2, 3, 4, 5, 8, 32, 33, 127, 128, 129, 255, 256, 257, 513):
+            for fill in (0x00, 0xFF, 0xA5):
+                mp_inputs.append(int.from_bytes(bytes([first]) + bytes([fill]) * (length - 1), "big"))
+    mp_inputs = sorted(set(mp_inputs))
+    decide("MP", {"number", "first-byte"}, "Domain argument (checked on the code): MP looks at the number only through comparisons with 0 and int_to_bytes (minimal big-endian, "
+           "library contract), and at the encoding only through its first byte (masked), len() (packed) and concatenation, so its behaviour depends on: zero or not, the "
+           "value of the first byte (all 255 enumerated), the length (both sides of the byte boundaries of the length field) and is uniform in the remaining bytes "
+           "(three fillings)", mp_inputs, _ref_MP,
+           lambda b_: f"MP({hex(b_[0])[:24]}) = {b_[1][:12] if not isinstance(b_[1], str) else b_[1]!r}; RFC 4251 mpint is {_ref_MP(b_[0])[:12]!r}... (minimal big-endian, one leading zero byte iff the top bit is set, zero = empty)")
     # readers on reference-encoded streams
     badr = None
     seqs = [[b""], [b"a"], [b"ssh-rsa", b"", b"\x00\x01"], [b"x" * 300, b"yz"], [bytes(range(256)), b"q"]]
@@ -574,7 +667,7 @@ MUTANTS = [
     Mutant("getNS-cursor-skips-prefix-only", CM, "        ns.append(s[c + 4 : 4 + l + c])\n        c += 4 + l\n", "        ns.append(s[c + 4 : 4 + l + c])\n        c += l\n", expect_rule="primitive/getNS"),
     Mutant("mp-sign-test-wrong-mask", CM, "    if ord(bn[0:1]) & 128:", "    if ord(bn[0:1]) > 128:", expect_rule="primitive/MP"),
     Mutant("ns-length-before-encoding", CM, "    if isinstance(t, str):\n        t = t.encode(\"utf-8\")\n    return struct.pack(\"!L\", len(t)) + t",
-           "    n = len(t)\n    if isinstance(t, str):\n        t = t.encode(\"utf-8\")\n    return struct.pack(\"!L\", n) + t", expect_rule="primitive/NS"),
+           "    n = len(t)\n    if isinstance(t, str):\n        t = t.encode(\"utf-8\")\n    return struct.pack(\"!L\", n) + t", expect_rule="primitive"),
     Mutant("getMP-little-endian", CM, "        mp.append(int.from_bytes(data[c + 4 : c + 4 + length], \"big\"))", "        mp.append(int.from_bytes(data[c + 4 : c + 4 + length], \"little\"))",
            expect_rule="primitive/getMP"),
     Mutant("private-blob-drops-ed25519", KY, "        elif type == \"Ed25519\":\n            return (\n                common.NS(b\"ssh-ed25519\")\n                + common.NS(data[\"a\"])\n                + common.NS(data[\"k\"] + data[\"a\"])\n            )\n        else:",
@@ -591,6 +684,21 @@ MUTANTS = [
     Mutant("curve-table-name", KY, "    b\"secp384r1\": b\"nistp384\",", "    b\"secp384r1\": b\"nistp-384\",", expect_rule="roundtrip/"),
     Mutant("blob-typo-component", KY, "            return common.NS(b\"ssh-rsa\") + common.MP(data[\"e\"]) + common.MP(data[\"n\"])", "            return common.NS(b\"ssh-rsa\") + common.MP(data[\"e\"]) + common.MP(data[\"N\"])",
            expect_rule="roundtrip/"),
+    # the same faults must be caught by the structural / finite-exhaustive layer alone
+    Mutant('s-getNS-cursor-skips-prefix-only', CM, '        ns.append(s[c + 4 : 4 + l + c])\n        c += 4 + l\n',
+           '        ns.append(s[c + 4 : 4 + l + c])\n        c += l\n', expect_rule='s/primitive/offsets'),
+    Mutant('s-reader-loses-dsa-branch', KY, '        elif keyType == b"ssh-dss":\n            p, q, g, y, x, rest = common.getMP(rest, 5)\n            return cls._fromDSAComponents(y=y, g=g, p=p, q=q, x=x)\n',
+           '', expect_rule='s/keys/every-written-type-is-readable'),
+    Mutant('s-rsa-blob-components-swapped', KY, '            e, n, rest = common.getMP(rest, 2)',
+           '            n, e, rest = common.getMP(rest, 2)', expect_rule='s/keys/field-order'),
+    Mutant('s-v1-cipher-not-accepted', KY, '            cipherName = b"aes256-ctr"',
+           '            cipherName = b"aes256-cbc"', expect_rule='s/container/v1-cipher'),
+    Mutant('s-v1-check-offset', KY, '        return cls._fromString_PRIVATE_BLOB(privKeyList[8:])',
+           '        return cls._fromString_PRIVATE_BLOB(privKeyList[4:])', expect_rule='s/container/v1-check-words'),
+    Mutant('s-guess-misses-ed25519-blob', KY, '            or data.startswith(b"\\x00\\x00\\x00\\x0bssh-ed25519")\n',
+           '', expect_rule='s/dispatch/guess-recognises-written'),
+    Mutant('s-curve-table-name', KY, '    b"secp384r1": b"nistp384",',
+           '    b"secp384r1": b"nistp-384",', expect_rule='s/keys/type-tags'),
 ]
 SILENT = [
     Silent("ec-point-to_bytes-fixed-width", KY, "                    + utils.int_to_bytes(data[\"x\"], byteLength)\n                    + utils.int_to_bytes(data[\"y\"], byteLength)\n",
